@@ -301,7 +301,8 @@ func runEnum(r *evid.Run, scr string) workerOut {
 		heightsFee = heightsOut
 	}
 	outSets := multisets(outAlpha, maxOut)
-	inSetsBase := multisets(inAlphabet, maxInBase)
+	// the EMPTY reference set first (a transaction without inputs), then all multisets
+	inSetsBase := append([]mset{{Vals: []int64{}, Sum: new(big.Int)}}, multisets(inAlphabet, maxInBase)...)
 	nIn := 0
 	for _, m := range inSetsBase {
 		if len(m.Vals) <= maxIn {
@@ -805,7 +806,7 @@ func main() {
 	sort.Strings(pan)
 	r.Assume = append(r.Assume,
 		"amount alphabet {0,1,minFee-1,minFee,10^8,2^31,2^53+1,2^62-1,2^62,2^62+1,2^63-1-minFee,2^63-1}; outputs additionally {-1,-minFee,-2^63} (individually invalid amounts, to see a missing per-output guard)",
-		"quick: every type over all output multisets of size 1..4 x input multisets of size 1..2, the baseline type (TransferAsset) also size 3; thorough: sizes 5 / 3 for every type",
+		"quick: every type over all output multisets of size 1..4 x the empty reference set and input multisets of size 1..2, the baseline type (TransferAsset) also size 3; thorough: sizes 5 / 3 for every type",
 		"outputs pay standard addresses with default payloads (CRCAppropriation: its two fixed addresses); types whose output check admits no such output are covered only by that rejection",
 		"'accepted' in part (a) = per-output check passed and fee check passed (what the statement's second sentence speaks about); types whose SpecialContextCheck ends validation early do not reach the fee check in the node",
 		"coinbase is outside the statement")
